@@ -296,6 +296,26 @@ func c18Spaces(tier string) []c18Space {
 	spaces = append(spaces, c18Space{kind: "scaled-programs", total: uint64(len(scaled)), input: func(idx uint64) string {
 		return model.Print([]*model.Script{scaled[idx].Script})
 	}})
+	// numbers: every integer from 0 to a bound, decimal and hex, at every position that interprets a number (comparison
+	// value, value(), case value, command argument, table value, format() parameters)
+	maxNum := uint64(70000)
+	if tier == "thorough" {
+		maxNum = 1 << 20
+	}
+	spaces = append(spaces, c18Space{kind: "numbers", total: (maxNum + 1) * 3, input: func(idx uint64) string {
+		n := idx / 3
+		switch idx % 3 {
+		case 0, 1:
+			lit := fmt.Sprint(n)
+			if idx%3 == 1 {
+				lit = fmt.Sprintf("0x%X", n)
+			}
+			return "script S {\n\tif (var(V) == " + lit + ") {\n\t\tx\n\t}\n\twhile (var(W) < " + lit + " && flag(F)) {\n\t\ty(" + lit + ", value(" + lit + "))\n\t}\n\tswitch (var(X)) {\n\t\tcase " + lit + ":\n\t\t\tz\n\t}\n\tif (var(Y) >= value(" + lit + ") || specialvar(VAR_RESULT, A) != " + lit + ") {\n\t\tq\n\t}\n}\nmapscripts M {\n\tT [\n\t\tV, " + lit + ": S\n\t]\n}\n"
+		default:
+			lit := fmt.Sprint(n)
+			return "text T {\n\tformat(\"aa bb cc dd\", \"TEST\", " + lit + ", numLines=" + lit + ", cursorOverlapWidth=" + lit + ")\n}\nscript S2 {\n\tmsgbox(format(\"aa bb cc\", " + lit + "))\n}\n" // (every movement multiplier value is in C14)
+		}
+	}})
 	// character strings
 	nC := uint64(len(c18Chars))
 	var chOffsets []uint64
@@ -639,5 +659,5 @@ func runC18(tier string) int {
 		"configurations are a covering set, not the full matrix: every option value appears in at least one configuration",
 		"an error must be a parser.ParseError with 1 <= start line <= end line <= number of lines (counting the empty line after a final newline)")
 	return r.Finish(r.Get("evaluations"), r.Get("nontrivial"),
-		"(a) every sequence of <= L tokens from a 57-lexeme alphabet after each of 29 context prefixes, with 3 suffixes; (b) every single deviation (truncation, deletion, replacement or insertion by every alphabet token) of 10 seed programs that use every production (thorough: pairs of deviations on the small seeds); (c) every sequence of <= S well-formed statement templates (25 templates, shared with C01); (d) every sequence of <= D constant definitions over three names whose values mention each other, followed by a program using them at every use site; (e) every scaled program (templates repeated K times, blocks nested K deep, switches with K cases); (f) every string of <= N characters over 23 characters incl. multi-byte letters, a 3-byte non-letter, U+FFFD, NUL, quote, backtick, CR, bare and inside 'script S { x('; each input under a covering set of configurations (optimize, line markers/path, switches, font file/default font, command configs incl. argument positions -1 and 3, normal and lint); evaluations = input x configuration runs; non-trivial = the input is rejected (an error path is taken)")
+		"(a) every sequence of <= L tokens from a 57-lexeme alphabet after each of 29 context prefixes, with 3 suffixes; (b) every single deviation (truncation, deletion, replacement or insertion by every alphabet token) of 10 seed programs that use every production (thorough: pairs of deviations on the small seeds); (c) every sequence of <= S well-formed statement templates (25 templates, shared with C01); (d) every sequence of <= D constant definitions over three names whose values mention each other, followed by a program using them at every use site; (e) every integer from 0 to 70000 (thorough 2^20), decimal and hex, at every position that interprets a number; (e') every scaled program (templates repeated K times, blocks nested K deep, switches with K cases); (f) every string of <= N characters over 23 characters incl. multi-byte letters, a 3-byte non-letter, U+FFFD, NUL, quote, backtick, CR, bare and inside 'script S { x('; each input under a covering set of configurations (optimize, line markers/path, switches, font file/default font, command configs incl. argument positions -1 and 3, normal and lint); evaluations = input x configuration runs; non-trivial = the input is rejected (an error path is taken)")
 }
